@@ -811,3 +811,24 @@ func (s *Sim) doGetSub(op Op) *Step {
 	}
 	return &s.Log[len(s.Log)-1]
 }
+
+// EndFirstFeed closes the terminator of the earliest-registered live feed of (b, c) that is still running, if at
+// least one other feed of that collection keeps running: the others must go on receiving every event (C08, C16).
+func (s *Sim) EndFirstFeed(b, c int) bool {
+	feeds := s.Env.FeedsOf(b, c)
+	if len(feeds) < 2 {
+		return false
+	}
+	f := feeds[0]
+	if f.ended.Swap(true) {
+		return false
+	}
+	close(f.term)
+	select {
+	case <-f.done:
+	case <-time.After(10 * time.Second):
+		s.report([]string{"C16"}, "feed.terminator", fmt.Sprintf("a live feed on b%d/c%d did not end within 10 s of its terminator closing", b, c))
+	}
+	s.Ctx.Count("live_feeds_ended_mid_history", 1)
+	return true
+}
